@@ -19,7 +19,7 @@ import z3
 
 from ..core import Eq, Fail, Note
 from .. import pat, ops, sym
-from ..kapi import get_alg, mv, coeffs, mv_eq_claims, eq_claims, kmap
+from ..kapi import get_alg, mv, coeffs, mv_eq_claims, eq_claims, kmap, twice_on_wrapper
 
 PROP = 'C08'
 LEVEL = 'translation_validation'
@@ -57,6 +57,32 @@ def cases(tier, seed):
     if tier == 'thorough':
         cfgs = [dict(p=p, q=q, r=r) for d in (2, 3) for p, q, r in pat.pqr_all(d)] + [dict(name='2DPGA'), dict(p=3, r=1), dict(p=2, q=2), dict(name='3DPGA')]
     nb = 3 if tier == 'quick' else 8
+    # routes that resolve generated functions by name: wrapper algebras (two passes) and registered functions
+    for cfg in (dict(p=2, wrapper='identity'), dict(p=3, wrapper='wraps'), dict(p=2, r=1, wrapper='identity')):
+        d = sum(v for k, v in cfg.items() if k in 'pqr')
+        S = [s for s in pat.SUB(d) if 2 <= len(s) <= 4]
+        for op in BIN[:11]:
+            for _ in range(3 if tier == 'quick' else 10):
+                ka, kb = list(rng.choice(S)), list(rng.choice(S))
+                va = [dict(keys=list(p), how='perm') for p in pat.perms(ka, rng, limit=3)][:3]
+                vb = [dict(keys=list(p), how='perm') for p in pat.perms(kb, rng, limit=2)][:2] or [dict(keys=None, how='asfullmv')]
+                out.append(dict(kind='binary', cfg=cfg, op=op, ka=ka, kb=kb, va=va or [dict(keys=None, how='asfullmv-binary')], vb=vb))
+        for op in UN[:9]:
+            if op in ('polarity', 'unpolarity') and cfg.get('r'):
+                continue
+            for _ in range(2 if tier == 'quick' else 6):
+                ka = list(rng.choice(S))
+                out.append(dict(kind='unary', cfg=cfg, op=op, ka=ka, va=[dict(keys=list(p), how='perm') for p in pat.perms(ka, rng, limit=4)]))
+    for cfg in (dict(p=2), dict(p=3), dict(p=2, r=1), dict(p=3, r=1)):
+        d = sum(cfg.values())
+        S = [s for s in (pat.SUB(d) if d <= 3 else pat.RND(d, 80, rng, max_len=6)) if 2 <= len(s) <= 6]
+        for op in REG_SRC:
+            for _ in range(4 if tier == 'quick' else 15):
+                ka, kb = list(rng.choice(S)), list(rng.choice(S))
+                if op == 'sw' and d >= 3:
+                    ka, kb = ka[:3], kb[:3]
+                out.append(dict(kind='registered', cfg=cfg, op=op, ka=ka, kb=kb, va=_variants(ka, d, rng, n_perm=3, n_pad=1),
+                                vb=_variants(kb, d, rng, n_perm=1, n_pad=1)[:2]))
     for cfg in cfgs:
         d = 3 if cfg.get('name') == '2DPGA' else (4 if cfg.get('name') == '3DPGA' else sum(v for k, v in cfg.items() if k in 'pqr'))
         nondeg = cfg.get('r', 0) == 0 and 'name' not in cfg
@@ -100,7 +126,49 @@ def _variant_mv(alg, base_mv, var):
 
 
 def run_case(desc, V):
-    alg = get_alg(desc['cfg'])
+    if desc['kind'] == 'registered':
+        from ..kapi import make_alg
+        return _registered(desc, V, make_alg(desc['cfg']))
+    return twice_on_wrapper(desc['cfg'], lambda alg: _body(desc, V, alg))
+
+
+REG_SRC = {
+    'grade12': ('def reg_grade12(x):\n    return x.grade(1, 2)\n', 1),
+    'grade0d': ('def reg_grade02(x):\n    return x.grade((0, 2)) + x.grade(1)\n', 1),
+    'rev-gp': ('def reg_revgp(x, y):\n    return ~x * y\n', 2),
+    'sum-op': ('def reg_sumop(x, y):\n    return (x + y) ^ y.grade(1)\n', 2),
+    'sw': ('def reg_sw(x, y):\n    return x >> y\n', 2),
+}
+
+
+def _registered(desc, V, alg):
+    """a compiled registered function applied to storage variants of the same elements."""
+    src, nargs = REG_SRC[desc['op']]
+    ns = {}
+    exec(src, ns)
+    f = [v for k, v in ns.items() if k.startswith('reg_')][0]
+    rf = alg.register(f)
+    a = mv(alg, V, 'a', desc['ka'])
+    args0 = [a]
+    if nargs == 2:
+        b = mv(alg, V, 'b', desc['kb'])
+        args0.append(b)
+    want = coeffs(f(*args0))          # plain Python function on the base layout
+    claims = mv_eq_claims(f'registered-base', rf(*args0), want, fkey=f'registered|{desc["op"]}|base')
+    for i, var in enumerate(desc['va']):
+        av = _variant_mv(alg, a, var)
+        args = [av] + args0[1:]
+        claims += mv_eq_claims(f'registered:{var["how"]}[{i}]', rf(*args), want, fkey=f'registered|{desc["op"]}|{var["how"]}')
+    if nargs == 2:
+        for i, var in enumerate(desc['vb']):
+            bv_ = _variant_mv(alg, args0[1], var)
+            claims += mv_eq_claims(f'registered-b:{var["how"]}[{i}]', rf(a, bv_), want, fkey=f'registered|{desc["op"]}|{var["how"]}')
+    # and again, after every variant has been compiled
+    claims += mv_eq_claims(f'registered-base-again', rf(*args0), want, fkey=f'registered|{desc["op"]}|base-again')
+    return claims
+
+
+def _body(desc, V, alg):
     op = desc['op']
     a = mv(alg, V, 'a', desc['ka'])
     claims = []
